@@ -7,12 +7,12 @@ package main
 // which costs pruning but never soundness.
 
 import (
-	"fmt"
-	"strings"
 	"encoding/binary"
+	"fmt"
 	"hash"
 	"hash/fnv"
 	"sort"
+	"strings"
 	"sync"
 )
 
